@@ -1,0 +1,20 @@
+//go:build verif
+
+// Contracts checked by /verif/gvc (contract-based deductive verification).
+// This file contains comments only; it is compiled only under the "verif" build tag.
+
+package gmqtt
+
+// MessageToPublish: the PUBLISH packet built for a message carries the message's flags, identifier and,
+// for v5, the Message Expiry Interval property exactly when the message's interval is non-zero.
+//@ func MessageToPublish
+//@ props C01 C12
+//@ requires msg != nil
+//@ ensures [C01] result != nil && isfresh(result)
+//@ ensures [C01] result.Dup == msg.Dup && result.Qos == msg.QoS && result.PacketID == msg.PacketID && result.Retain == msg.Retained && result.Version == version
+//@ ensures [C01] len(result.TopicName) == len(msg.Topic) && result.Payload == msg.Payload
+//@ ensures [C12] version == 5 ==> result.Properties != nil && isfresh(result.Properties)
+//@ ensures [C12] version == 5 && msg.MessageExpiry != 0 ==> result.Properties.MessageExpiry != nil && *result.Properties.MessageExpiry == msg.MessageExpiry
+//@ ensures [C12] version == 5 && msg.MessageExpiry == 0 ==> result.Properties.MessageExpiry == nil
+//@ ensures [C01] version == 5 ==> result.Properties.SubscriptionIdentifier == msg.SubscriptionIdentifier && result.Properties.User == msg.UserProperties && result.Properties.CorrelationData == msg.CorrelationData
+//@ ensures [C01] version != 5 ==> result.Properties == nil
